@@ -3,8 +3,8 @@
    All theorems quantify over every schedule (`sch : list tid`, disabled steps skipped), every set of
    pre-existing channels, every number of publisher / subscriber threads and messages (`ths`).
    `facts` = the variant of the model selected by the facts read from in_memory.py on this run. *)
-From Coq Require Import List String Bool Arith Permutation.
-From SV Require Import Model.Transport Gen.TransportGen Proofs.Transport.
+From Coq Require Import Ascii List String Bool Arith Permutation.
+From SV Require Import Model.Transport Gen.TransportGen Proofs.Transport Model.Glob Proofs.Glob.
 Import ListNotations.
 
 (* Facts read from semantiva/execution/transport/in_memory.py on this run. *)
@@ -138,6 +138,23 @@ Theorem C14_exactly_once_at_end_now :
   all_done s = true ->
   Permutation (appended s) (delivered s ++ reachable_queued s) /\ NoDup (delivered s) /\ lost s = [].
 Proof. exact (C14_exactly_once_at_end gen_atomic_create). Qed.
+(* ---- pattern routing: the transport matches with fnmatch; Model/Glob.v is that matcher (star, question mark, [seq], [!seq]), compared with
+   Python's on generated patterns and names every run.  The exact-name and `prefix*` patterns used above are instances of it,
+   and every theorem of this file is stated for an arbitrary pattern, PGlob included. *)
+Theorem C14_exact_is_glob : forall s c, plain (list_ascii_of_string s) = true -> fnmatchb c (PGlob s) = fnmatchb c (PExact s).
+Proof. intros s c H. simpl. rewrite (glob_exact s c H). apply String.eqb_sym. Qed.
+Theorem C14_prefix_is_glob : forall s c, plain (list_ascii_of_string s) = true -> fnmatchb c (PGlob (s ++ "*")) = fnmatchb c (PPrefix s).
+Proof. intros s c H. simpl. apply (glob_prefix_star s c H). Qed.
+Theorem C14_star_matches_all : forall c, fnmatchb c (PGlob "*") = true.
+Proof. intros c. simpl. apply glob_star_all. Qed.
+Example ex_glob : fnmatchb "jobs.1.cfg" (PGlob "jobs.[12].cfg") = true /\ fnmatchb "jobs.3.cfg" (PGlob "jobs.[12].cfg") = false /\
+                  fnmatchb "jobs.3.cfg" (PGlob "jobs.[!1].*") = true /\ fnmatchb "jobs.12.cfg" (PGlob "jobs.?.cfg") = false /\
+                  fnmatchb "x[1]" (PGlob "x[[]1]") = true /\ fnmatchb "a" (PGlob "[b-a]") = false.
+Proof. vm_compute. repeat split; reflexivity. Qed.
+
+Print Assumptions C14_exact_is_glob.
+Print Assumptions C14_prefix_is_glob.
+Print Assumptions C14_star_matches_all.
 Print Assumptions C14_conservation_now.
 Print Assumptions C14_exactly_once_at_end_now.
 Print Assumptions C14_conservation.
